@@ -98,7 +98,7 @@ pub fn run(tier: Tier, seed: u64) -> i32 {
     ctx.set_rule("proptest: circuits with register reuse x n in 2..4 x every p_eval x every non-empty p_out subset; invariant over the recorded traffic: a party outside p_out returns [], is never addressed an 'output wire shares' or 'lambda' message, the last message on every link towards it is the final input-processing message, its inbox ends empty; for members of p_out the decoded output messages carry Some exactly at the set of unique output registers; lambda only from the evaluator. non-trivial = p_out is a strict subset of the parties; distinct by hash of the case");
     ctx.assume("leak detection is by label, position and decoded structure of the traffic, not information-theoretic");
     let cp = CaseParams { circ: CircParams { n_min: 2, n_max: 4, max_gates: 30, ..Default::default() }, all_scheds: false, caps: vec![0, 1], tmp: false };
-    prop_search(&ctx, "c05", tier.pick(320, 3000), || gen_case(cp.clone()), |c| match test_case(c) {
+    prop_search(&ctx, "c05", tier.pick(320, 12000), || gen_case(cp.clone()), |c| match test_case(c) {
         Err(f) if f.signature.starts_with("INFRA") => {
             ctx.infra(f.msg.clone());
             Ok(CaseInfo::default())
@@ -107,7 +107,7 @@ pub fn run(tier: Tier, seed: u64) -> i32 {
     });
     if !ctx.stopped() {
         let wide = CaseParams { circ: CircParams::wide(2, 4), all_scheds: false, caps: vec![0], tmp: false };
-        prop_search(&ctx, "c05wide", tier.pick(24, 300), || gen_case(wide.clone()), |c| match test_case(c) {
+        prop_search(&ctx, "c05wide", tier.pick(24, 1200), || gen_case(wide.clone()), |c| match test_case(c) {
             Err(f) if f.signature.starts_with("INFRA") => {
                 ctx.infra(f.msg.clone());
                 Ok(CaseInfo::default())
